@@ -57,18 +57,21 @@ fn dispatch_idles_body(&mut self, idles_cell: &mut Vec<IdleCallback<'l, Data>>, 
 //@ item src/loop_logic.rs / impl EventLoop<'l, Data> / fn dispatch_events props=C13 sigonly ret=r
 //@ spec
         ensures r is Ok ==> final(self).events_done(),
+                // frame (ASSUMED for the whole function; its slices never touch the field): the shared stop flag is the same object
+                final(self).stop_flag() == old(self).stop_flag(),
 //@ enditem
 //@ item src/loop_logic.rs / impl EventLoop<'l, Data> / fn dispatch_idles props=C13 sigonly
 //@ spec
         // C13: idle callbacks run only after the source callbacks of a dispatch whose event phase succeeded
         requires old(self).events_done(),
-        ensures final(self).idles_done(),
+        ensures final(self).idles_done(), final(self).stop_flag() == old(self).stop_flag(),
 //@ enditem
 //@ item src/loop_logic.rs / impl EventLoop<'l, Data> / fn dispatch props=C13 ret=r
 //@ spec
         ensures
             // C13: a dispatch that returns Ok has run the idle phase (after the event phase) ...
             r is Ok ==> final(self).idles_done(),
+            final(self).stop_flag() == old(self).stop_flag(),
 //@ enditem
 //@ close
 
